@@ -154,13 +154,15 @@ def worlds(tier):
                         and r0[1] in ('acq', 'with', 'ctx'):
                     # the second thread arrives exactly when the first one leaves its section
                     out.append(({'threads': [[r0], [r1]], 'nobj': 2, 'reentrant': reentrant, 'default_timeout': -1,
-                                 'offsets': {'1': D}}, 1 if q else 2))
-                if q and (r0[3] != D or (r1[3] == D and r1[1] not in ('acq', 'with'))):
-                    continue              # quick: the first thread's section is long, the second's mostly short
+                                 'offsets': {'1': D}}, 1 if q or r0[1] != 'acq' else 2))
+                if r0[3] != D and (q or r1[3] != D):
+                    continue              # the first thread's section is long (thorough: or the second's is)
+                if q and r1[3] == D and r1[1] not in ('acq', 'with'):
+                    continue              # quick: the second thread's section is mostly short
                 core = r0[1] == 'acq' and (r1[1], r1[2]) in (('acq', None), ('timed', 2 * D), ('with', None)) and r0[3] == D and r1[3] == 0.0
                 dt = D / 2 if (r0[1] == 'with' or r1[1] == 'with') and r1[2] is None and r1[0] == 1 else -1
                 out.append(({'threads': [[r0], [r1]], 'nobj': 2, 'reentrant': reentrant,
-                             'default_timeout': dt}, (2 if core else 1) if q else 2))
+                             'default_timeout': dt}, 2 if core or (not q and r0[1] in ('acq', 'with') and r1[0] == 0) else 1))
     # default-timeout objects used through `with` (finite default: the block must not run unlocked)
     for dt in (0, D / 2):
         for r1form in ('with', 'acq', 'ctx'):
